@@ -97,6 +97,8 @@ pub struct Exec<T> {
     pub canary: Option<String>,
     /// An input slice was modified by the call.
     pub input_changed: Option<String>,
+    /// Heap allocations made while the library routine ran (0 when it panicked: the payload allocates).
+    pub allocs: u64,
 }
 
 pub struct Arenas {
@@ -160,6 +162,7 @@ impl<T: Elem> VecCall<T> {
                 set_mask(self.mask);
             }
             let value = self.value;
+            let allocs0 = crate::alloc_calls();
             let res = match self.r.f {
                 Func::R1(f) => mem::catch(|| Out::Scalar(f(sa))),
                 Func::R2(f) => mem::catch(|| Out::Scalar(f(sa, sb))),
@@ -172,6 +175,7 @@ impl<T: Elem> VecCall<T> {
                     Out::Vector(Vec::new())
                 }),
             };
+            let allocs = if res.is_ok() { crate::alloc_calls() - allocs0 } else { 0 };
             let out = match res {
                 Ok(Out::Vector(_)) => Out::Vector(std::slice::from_raw_parts(pr as *const T, lr).to_vec()),
                 Ok(o) => o,
@@ -197,6 +201,7 @@ impl<T: Elem> VecCall<T> {
                 out,
                 canary,
                 input_changed,
+                allocs,
             }
         }
     }
